@@ -3,12 +3,22 @@
    tokenizer reads back from an emitted text item renders to the same bytes), added rel tokens are
    not repeated (adding a required token is idempotent), and a value accepted by the URL gate is
    u.String() of a parse (C03), whose stability under a second parse is the monitored net/url
-   hypothesis U5.  Missing: the composition over whole documents (needs Html/RoundTrip); carried
-   by the idempotence oracle Sanitize(Sanitize(x)) = Sanitize(x) on every generated case of the
-   stated policy class, StrictPolicy and UGCPolicy. *)
+   hypothesis U5.
+   Proved for whole documents (C20_idempotent_if_attrs_stable), for every policy that keeps no
+   comments and allows no raw-text element: if the attribute filter is idempotent on its own
+   output for the policy's elements, then Sanitize(Sanitize(x)) = Sanitize(x) for every byte
+   string x.  This composes the round-trip theorem (the tokenizer reads back exactly the emitted
+   items), the pass-through theorem (canonical items are emitted unchanged) and the escaping
+   round trip; it reduces the property to the attribute filter.  The premise holds outright for
+   StrictPolicy (C20_strict) and for every element whose attribute list passes through none of the
+   rewriting passes (C20_attrs_stable_plain_elements).
+   Missing: the premise for elements with URL attributes / forced rel, target, crossorigin and
+   sandbox (it needs the net/url stability hypothesis U5 and the rel-token lemmas composed through
+   both runs); carried by the idempotence oracle on every generated case of the stated policy
+   class, StrictPolicy and UGCPolicy. *)
 From Coq Require Import List NArith Bool.
 Import ListNotations.
-From BM Require Import Bytes Escape Tokenizer Policy Attrs Loop EscapeProofs LinkProofs MiscProofs.
+From BM Require Import Bytes Escape Tokenizer Policy Attrs Loop LoopProps EscapeProofs LinkProofs MiscProofs SanRoundTrip PassThrough AttrIdem GenScripts C04Inst PlainInst.
 
 Theorem C20_escaping_not_applied_twice_partial : forall d,
   render_item (IText (unescape false (render_item (IText d)))) = render_item (IText d).
@@ -21,5 +31,42 @@ Proof.
   intros c v. destruct words_ok as ((W1 & W2) & (W3 & W4) & _). split; apply add_word_idem; auto.
 Qed.
 
+Theorem C20_idempotent_if_attrs_stable : forall M U R (I : interp M U R) (p : policy M U R),
+  plain_policy I p ->
+  (forall n a aps, element_policies I p n = Some aps ->
+     clean_attrs I p n (clean_attrs I p n a aps) aps = clean_attrs I p n a aps) ->
+  forall s, sanitize_bytes I p (sanitize_bytes I p s) = sanitize_bytes I p s.
+Proof. intros M U R I p. exact (sanitize_idempotent I p). Qed.
+
+(* the premise, for elements whose attributes no later pass rewrites (not a URL-carrying,
+   crossorigin or sandbox element, no style rules) *)
+Theorem C20_attrs_stable_plain_elements : forall M U R (I : interp M U R) (p : policy M U R) n a aps,
+  linkable n = false -> has_style_policies I p n = false ->
+  clean_attrs I p n (clean_attrs I p n a aps) aps = clean_attrs I p n a aps.
+Proof. intros M U R I p n a aps. exact (clean_attrs_idem_plain I p n a aps). Qed.
+
+(* hence: policies all of whose elements are of that kind are idempotent on every input *)
+Corollary C20_idempotent_plain_elements : forall M U R (I : interp M U R) (p : policy M U R),
+  plain_policy I p ->
+  (forall n, elem_allowed I p n = true -> linkable n = false /\ has_style_policies I p n = false) ->
+  forall s, sanitize_bytes I p (sanitize_bytes I p s) = sanitize_bytes I p s.
+Proof.
+  intros M U R I p Hplain Hel. apply (sanitize_idempotent I p Hplain).
+  intros n a aps Hp. assert (Ha : elem_allowed I p n = true) by (rewrite element_policies_allowed, Hp; reflexivity).
+  destruct (Hel n Ha) as [H1 H2]. apply clean_attrs_idem_plain; assumption.
+Qed.
+
+Theorem C20_strict : forall (I : interp smatcher unit unit) s,
+  sanitize_bytes I strict (sanitize_bytes I strict s) = sanitize_bytes I strict s.
+Proof.
+  intros I. apply (sanitize_idempotent I strict (strict_plain I)).
+  intros n a aps Hp. pose proof (element_policies_allowed I strict n) as E.
+  rewrite (strict_nothing I), Hp in E. discriminate.
+Qed.
+
 Print Assumptions C20_escaping_not_applied_twice_partial.
+Print Assumptions C20_idempotent_if_attrs_stable.
+Print Assumptions C20_strict.
+Print Assumptions C20_attrs_stable_plain_elements.
+Print Assumptions C20_idempotent_plain_elements.
 Print Assumptions C20_rel_tokens_not_repeated.
